@@ -2,10 +2,9 @@
 use super::{Prop, COMMON_ASSUMPTIONS};
 use crate::engine::{op, Scenario};
 use crate::refs::*;
-use crate::rt::{self, choice, flag, perm, R};
+use crate::rt::{self, choice, perm, R};
 use crate::spec::{self, *};
 use crate::{ensure, must};
-use bc_components::DigestProvider;
 use bc_envelope::prelude::*;
 use dcbor::prelude::*;
 use std::collections::{HashMap, HashSet};
